@@ -157,6 +157,14 @@ def script_expiry_after_failed_apply(rng):
         sc.append({'k': 'apply', 'adopt': total >= 600 or rng.random() < 0.2})
     return sc
 
+def script_drift_between_review_and_apply(rng):
+    """the reviewed plan and the plan at apply time differ only in what is on disk: deploy+apply v1, the module
+    changes, deploy issues T for the update, the user edits the deployed file, apply with T must answer
+    E_CONFIRM_TOKEN_MISMATCH; a fresh review then applies"""
+    return [{'k': 'deploy'}, {'k': 'apply', 'adopt': True}, {'k': 'mutate', 'm': 0}, {'k': 'deploy'},
+            {'k': 'mutate', 'm': rng.choice([1, 1, 2])}, {'k': 'apply', 'adopt': rng.random() < 0.5},
+            {'k': 'deploy'}, {'k': 'apply', 'adopt': True}]
+
 def run_tool_scenario(ctx, idx, depth, script=None):
     rng = ctx.rng
     sb = Sandbox('c11')
@@ -166,6 +174,7 @@ def run_tool_scenario(ctx, idx, depth, script=None):
     issued = []      # (token, binding dict)
     try:
         t, ps = tw.setplan_term(); ops.append(t); obs.append((5, '', '')); trace.append({'op': 'observe-plan', 'plans': ps})
+        cur_ps = ps; issue_ident = {}
         issue_skew = {}
         for step in range(len(script) if script else depth):
             forced = script[step] if script else None
@@ -177,6 +186,7 @@ def run_tool_scenario(ctx, idx, depth, script=None):
                     ctx.violation('deploy tool returned no envelope', {'stream': 'tool', 'trace': trace}); return None
                 if env.get('ok'):
                     tok = env['data'].get('confirm_token'); issued.append((tok, b)); issue_skew[tok] = tw.skew
+                    issue_ident[tok] = cur_ps[tw.bindings.index(b)]
                     ops.append('Issue %s %s' % (cbinding(tw.btuple(b)), cq.cstr(tok))); obs.append((0, tok, ''))
                     trace.append({'op': 'deploy', 'binding': b, 'issued': tok[:8] + '…', 'plan_hash': env['data'].get('confirm_plan_hash')})
                 else:
@@ -228,6 +238,9 @@ def run_tool_scenario(ctx, idx, depth, script=None):
                     ctx.violation('deploy_apply changed target files although it did not report applied=true', {'stream': 'tool', 'trace': trace})
                 if o[0] == 4 and not (yes and not dry and tok and any(t == tok and bb == b for t, bb in issued)):
                     ctx.violation('deploy_apply applied without yes / with dry_run / without a token issued for these arguments', {'stream': 'tool', 'trace': trace})
+                if o[0] == 4 and tok in issue_ident and issue_ident[tok] != cur_ps[tw.bindings.index(b)]:
+                    ctx.violation('deploy_apply applied although the plan recomputed at apply time differs from the plan reviewed when the token was issued',
+                                  {'stream': 'tool', 'trace': trace, 'reviewed': issue_ident[tok], 'at_apply': cur_ps[tw.bindings.index(b)]})
                 if o[0] == 4 and tok in issue_skew and (tw.skew - issue_skew[tok]) * 1000 >= TTL:
                     ctx.violation('deploy_apply applied with a token older than its ten-minute lifetime (%d s)' % (tw.skew - issue_skew[tok]), {'stream': 'tool', 'trace': trace})
                 if o[0] == 1 and tok is not None and yes and not dry and o[1] not in CODES and o[1] != 'E_ADOPT_CONFIRM_REQUIRED':
@@ -237,7 +250,7 @@ def run_tool_scenario(ctx, idx, depth, script=None):
                 if o[0] in (3, 4):
                     issued = [(t, bb) for t, bb in issued if t != tok]
                     if o[0] == 4:
-                        t2, ps = tw.setplan_term(); ops.append(t2); obs.append((5, '', '')); trace.append({'op': 'observe-plan', 'plans': ps})
+                        t2, ps = tw.setplan_term(); ops.append(t2); obs.append((5, '', '')); trace.append({'op': 'observe-plan', 'plans': ps}); cur_ps = ps
             elif k < 0.82:
                 m = rng.randrange(8) if not forced else forced['m']
                 if m >= 6:
@@ -261,7 +274,7 @@ def run_tool_scenario(ctx, idx, depth, script=None):
                 else:
                     if os.path.exists(tw.w['manifest']): os.remove(tw.w['manifest'])
                     what = 'delete target manifest'
-                t2, ps = tw.setplan_term(); ops.append(t2); obs.append((5, '', '')); trace.append({'op': 'mutate', 'what': what, 'plans': ps})
+                t2, ps = tw.setplan_term(); ops.append(t2); obs.append((5, '', '')); trace.append({'op': 'mutate', 'what': what, 'plans': ps}); cur_ps = ps
             elif k < 0.94:
                 dt = rng.choice(DTS) if not forced else forced['dt']; tw.skew += dt
                 open(tw.clock_file, 'w').write(str(tw.skew))
@@ -337,6 +350,9 @@ def run(ctx):
             if i == 0: ctx.sample(r[1])
     for i in range(6 if quick else 60):
         r = run_tool_scenario(ctx, 10000 + i, 0, script=script_expiry_after_failed_apply(ctx.rng))
+        if r: cases.append(r)
+    for i in range(4 if quick else 40):
+        r = run_tool_scenario(ctx, 20000 + i, 0, script=script_drift_between_review_and_apply(ctx.rng))
         if r: cases.append(r)
     for c in ctx.corr('tool', HEADER, 'check_tool', 'list op * list (N * str * str)', cases, shard_chars=30000):
         ctx.violation('model and implementation disagree on the deploy/deploy_apply state machine', c, no_input=True)
